@@ -129,10 +129,10 @@ func vC17FoldLeg(t *testing.T, ops, impl *bufio.Writer, only map[string]bool, se
 				return nil, resolver.ErrKeyNotFound
 			}).AnyTimes()
 		svk := signatureVerifier{keyResolver: rec}
-		issuers := []string{"did:jwk:eyJrdHkiOiJFQyJ9", "did:web:example.com:iam:alice", "did:nuts:alice", "did:jwk:", "did:jwk", "DID:JWK:x", "did:jwk:a#0", "did:jwkx:a", "", "x#y"}
+		issuers := []string{"did:jwk:eyJrdHkiOiJFQyJ9", "did:web:example.com:iam:alice", "did:nuts:alice", "did:jwk:", "did:jwk", "DID:JWK:x", "did:jwk:a#0", "did:jwkx:a", "", "x#y", "did:web:example.com:did:jwk:users"}
 		i := 0
 		for _, iss := range issuers {
-			for _, kid := range []string{"", iss, iss + "#0", iss + "#key-1", iss + "2", iss + "#", "#0", "did:jwk:other", "did:jwk:other#0", "did:jwk:" + iss, "did:web:mallory#did:jwk:", iss + "#a#b"} {
+			for _, kid := range []string{"", iss, iss + "#0", iss + "#key-1", iss + "2", iss + "#", "#0", "did:jwk:other", "did:jwk:other#0", "did:jwk:" + iss, "did:web:mallory#did:jwk:", iss + "#a#b", "did:web:x:did:jwk:y", "xdid:jwk:a", iss + ":did:jwk:z", "did:jwk"} {
 				name := fmt.Sprintf("resolvekid-%d", i)
 				i++
 				if len(only) > 0 && !only["|"+name] {
